@@ -1,7 +1,7 @@
 (** C13 -- a real field is re-written with the same text: the double read back from
     ['%w.qe' % x] (the nearest double of the printed decimal, [Num.nearest]) prints, with the
     same number of decimals q <= 14, the same digits and the same exponent (SciTrip.v), for
-    every double whose printed decimal exponent lies in [-300, 300]. *)
+    every double whose printed decimal exponent lies in [-307, 307]. *)
 From Coq Require Import Ascii String List Bool Arith ZArith NArith Lia QArith Qabs Lqa Qpower.
 From PTBase Require Import Exn PyStr PyNum PyVal Fmt FixedFormat.
 From P Require Import Digits SciTrip Num.
@@ -62,8 +62,8 @@ Proof.
   rewrite <- Qmult_assoc. rewrite (Bq_add 2 two_gt1). replace (e' - e + e)%Z with e' by lia. reflexivity.
 Qed.
 
-(** ** no overflow below 10^301 *)
-Lemma big_range : B10 ^ 301 * (1 + eps53) < B2 ^ 1024.
+(** ** no overflow below 10^308 *)
+Lemma big_range : B10 ^ 308 * (1 + eps53) < B2 ^ 1024.
 Proof. vm_compute. reflexivity. Qed.
 Lemma log2_value m e : (0 < m)%Z -> B2 ^ (Z.log2 m + e) <= Vnd (num_den m e).
 Proof.
@@ -73,7 +73,7 @@ Proof.
 Qed.
 
 (** ** THE trip, for [Num.nearest] *)
-Theorem nearest_trip p N k ng : (0 <= p <= 14)%Z -> (10 ^ p <= N < 10 ^ (p + 1))%Z -> (-300 <= k <= 300)%Z ->
+Theorem nearest_trip p N k ng : (0 <= p <= 14)%Z -> (10 ^ p <= N < 10 ^ (p + 1))%Z -> (-307 <= k <= 307)%Z ->
   exists m' e', nearest (Fin ng (Z.to_N N) (k - p)) = PDy ng m' e' /\ (0 < m')%Z /\
                 sci p (fst (num_den m' e')) (snd (num_den m' e')) = (N, k).
 Proof.
@@ -96,14 +96,36 @@ Proof.
     eapply Qle_lt_trans; [apply (log2_value m kk Mpos)|]. eapply Qle_lt_trans; [exact Up|].
     eapply Qle_lt_trans; [|exact big_range].
     assert (E0 : 0 < eps53) by reflexivity. apply Qmult_le_compat_r; [|lra].
-    (* N * 10^(k-p) <= 10^(k+1) <= 10^301 *)
+    (* N * 10^(k-p) <= 10^(k+1) <= 10^308 *)
     assert (A : inject_Z N <= B10 ^ (p + 1)).
     { rewrite <- (Bq_inj 10) by lia. rewrite <- Zle_Qle. lia. }
     pose proof (Bq_pos 10 ten_gt1 (k - p)) as Pc.
     assert (B : B10 ^ (p + 1) * B10 ^ (k - p) == B10 ^ (k + 1)) by (rewrite (Bq_add 10 ten_gt1); replace (p + 1 + (k - p))%Z with (k + 1)%Z by lia; reflexivity).
-    assert (C : B10 ^ (k + 1) <= B10 ^ 301) by (apply Qpower_le_compat_l; [lia|pose proof (Bq_gt1 10 ten_gt1); lra]).
+    assert (C : B10 ^ (k + 1) <= B10 ^ 308) by (apply Qpower_le_compat_l; [lia|pose proof (Bq_gt1 10 ten_gt1); lra]).
     rewrite <- B in C. set (a := B10 ^ (p + 1)) in *. set (c := B10 ^ (k - p)) in *. set (n := inject_Z N) in *. nra. }
   rewrite NoOv. destruct (norm_dy_value ng m kk Mpos) as [m' [e' [E [M' V]]]].
   exists m', e'. split; [exact E|]. split; [exact M'|].
   apply Trip; [apply num_den_pos_strict; exact M'|apply (num_den_pos m' e'); lia|]. exact V.
 Qed.
+
+(** ** the boundary: digits and exponents for which the trip is NOT the identity *)
+Definition trip_ok (p N k : Z) : bool :=
+  match nearest (Fin false (Z.to_N N) (k - p)) with
+  | PDy _ m e => let '(N', k') := sci p (fst (num_den m e)) (snd (num_den m e)) in (N' =? N)%Z && (k' =? k)%Z
+  | _ => false
+  end.
+Theorem trip_ok_up_to_15_digits p N k : (0 <= p <= 14)%Z -> (10 ^ p <= N < 10 ^ (p + 1))%Z -> (-307 <= k <= 307)%Z -> trip_ok p N k = true.
+Proof.
+  intros Hp HN Hk. unfold trip_ok. destruct (nearest_trip p N k false Hp HN Hk) as [m' [e' [E [_ S]]]].
+  rewrite E, S, !Z.eqb_refl. reflexivity.
+Qed.
+(** 16 digits: 2^53 + 1 = 9007199254740993 is not a double; 17 digits: 90071992547409931 *)
+Theorem trip_16_digits_refuted : (10 ^ 15 <= 9007199254740993 < 10 ^ 16)%Z /\ trip_ok 15 9007199254740993 15 = false.
+Proof. split; [vm_compute; split; [discriminate|reflexivity]|vm_compute; reflexivity]. Qed.
+Theorem trip_17_digits_refuted : (10 ^ 16 <= 90071992547409931 < 10 ^ 17)%Z /\ trip_ok 16 90071992547409931 16 = false.
+Proof. split; [vm_compute; split; [discriminate|reflexivity]|vm_compute; reflexivity]. Qed.
+(** exponents: 9e308 overflows; a 15-digit decimal at 1e-320 is a subnormal that holds 4 digits *)
+Theorem trip_exponent_308_refuted : trip_ok 0 9 308 = false.
+Proof. vm_compute. reflexivity. Qed.
+Theorem trip_subnormal_refuted : trip_ok 14 123456789012345 (-320) = false.
+Proof. vm_compute. reflexivity. Qed.
